@@ -153,7 +153,7 @@ func decodeToks(b []byte) []token.Token {
 
 func runC01(c *runCtx) {
 	res := c.res
-	res.Rule = "every byte-string entry point (tokenize, all parse/validate variants incl. strict, dialect, positions, context, timeout; recovery; format, formatter, AST.SQL; extract; scan; inspect; lint with seven rules) on: random byte strings (valid UTF-8 or not), reference lexeme sequences, generated statements, single-token corruptions, lexical garbage, deep/long shapes (NOT/paren/CASE/sub-query chains around the depth limit, 100k-term lists); and the low-level parser API (Parse, ParseContext, strict, ParseWithRecovery) on token sequences no tokenizer produces: statement tokens cut anywhere (no EOF), empty, EOF in the middle, Type-less tokens, random soups over the token vocabulary; each call runs in a child process with a timeout and must return a value or an error: no escaped panic, no fatal error, no hang (distinct = distinct inputs)"
+	res.Rule = "every byte-string entry point (tokenize, all parse/validate variants incl. strict, dialect, positions, context, timeout; recovery; format, formatter, AST.SQL; extract; scan; inspect; lint with seven rules; every lint fixer with and without the violation list) on: random byte strings (valid UTF-8 or not), layout pieces (blank runs, line ends, quote / comment openers, invalid and cut UTF-8 next to code), reference lexeme sequences, generated statements, single-token corruptions, lexical garbage, deep/long shapes (NOT/paren/CASE/sub-query chains around the depth limit, 100k-term lists); and the low-level parser API (Parse, ParseContext, strict, ParseWithRecovery) on token sequences no tokenizer produces: statement tokens cut anywhere (no EOF), empty, EOF in the middle, Type-less tokens, random soups over the token vocabulary; each call runs in a child process with a timeout and must return a value or an error: no escaped panic, no fatal error, no hang (distinct = distinct inputs)"
 	pool := newChildPool()
 	defer pool.Close()
 	names := make([]string, 0, len(entryPoints))
@@ -211,6 +211,17 @@ func runC01(c *runCtx) {
 			}
 		}
 		run("bytes", buf, 20*time.Second)
+	}
+	// layout pieces: blank runs, line ends, quote and comment openers, invalid and cut UTF-8 next to code — what the
+	// line-based linter rules and fixers, the formatter and the tokenizer's trivia loop look at
+	layoutPieces := []string{"SELECT", "select", "From", "a", "b1", "1", ",", ";", "=", " ", "  ", "   ", "\t", " \t", "\t ", "\n", "\r\n", "\n\n\n", "\r", "'", "''", "'x'", "\"", "`",
+		"--", "-- c", "/*", "*/", "/* c */", "\xff", "\x80", "\x80\x80", "\xc3", "\xe2\x82", "\xf0\x9f", "é", "名", "\\", "$$", "(", ")", "\x00"}
+	for i := 0; i < c.n(2500, 60000); i++ {
+		var sb strings.Builder
+		for k := 1 + rb.Intn(10); k > 0; k-- {
+			sb.WriteString(layoutPieces[rb.Intn(len(layoutPieces))])
+		}
+		run("layout-bytes", []byte(sb.String()), 20*time.Second)
 	}
 	// lexeme sequences
 	lg := &lexGen{r: c.rng.Fork()}
